@@ -116,12 +116,30 @@ def orElse (a b : Option (String × String)) : Option (String × String) :=
   | some x => some x
   | none => b
 
+/-- what the model predicts for the history (model string, notes); needs the tables -/
+def modelOf (t : Tables) (p1 : Policy) (c1 : ConnCase) (ob1 : ConnObs)
+    (second : Option (Policy × ConnCase × ConnObs)) (now0 now1 : Option Cert) : String × String :=
+  let r1 := full t p1 c1.b
+  let noSuite := ob1.cls == "suite"
+  let m1 := if noSuite then s!"1.srv=err 1.resumed=- 1.peers=- 1.chains=- 1.req=- {copied "1" ob1}" else showFull "1" r1 ob1
+  match second with
+  | none => (m1, stageNote "1" r1.stage ob1)
+  | some (p2, c2, ob2) =>
+    let recorded := mkCerts r1.recorded now0 now1
+    let rs : Resume := { cacheHit := r1.completed && !noSuite, mechOK := true, ecdhe := c1.b.ecdhe, recorded := recorded,
+                         finishedOK := c2.b.finishedOK }
+    let (m2, stage2) : String × Stage :=
+      match resume t p2 rs with
+      | .notResumed => let r2 := full t p2 c2.b; (showFull "2" r2 ob2, r2.stage)
+      | .resumedDone n ch => (s!"2.srv=done 2.resumed=1 2.peers={n} 2.chains={b01 ch} 2.req=- {copied "2" ob2}", .done)
+      | .resumedFailed s => (s!"2.srv=err 2.resumed=- 2.peers=- 2.chains=- 2.req=- {copied "2" ob2}", s)
+    (m1 ++ " " ++ m2, stageNote "1" r1.stage ob1 ++ stageNote "2" stage2 ob2)
+
 def judge (c o : String) : Option Verdict := do
   let ct := tokens c
   let ot := tokens o
   let stack ← kv ct "stack"
   let kind ← kv ct "kind"
-  let t ← tablesFor stack
   let p1 ← (kv ct "pol").bind Policy.ofName
   let c1 ← parseConn ct "1"
   -- a driver-level panic or skip is reported as is
@@ -130,35 +148,38 @@ def judge (c o : String) : Option Verdict := do
   if (kv ot "skipped").isSome then
     return { model := o, spec := none, trivial := true }
   let ob1 ← parseObs ot "1"
-  let r1 := full t p1 c1.b
   -- no mutual cipher suite: the handshake never reaches doFullHandshake (outside the model)
   let noSuite := ob1.cls == "suite"
-  let m1 := if noSuite then s!"1.srv=err 1.resumed=- 1.peers=- 1.chains=- 1.req=- {copied "1" ob1}" else showFull "1" r1 ob1
   let s1 := orElse (sigCheck c1) (if noSuite then none else judgeFull p1 c1.b ob1.o)
-  if kind != "hist" then
-    return { model := m1, spec := s1, note := stageNote "1" r1.stage ob1, trivial := noSuite }
-  -- second connection of a history
-  let p2 ← (kv ct "pol2").bind Policy.ofName
-  let c2 ← parseConn ct "2"
-  let ob2 ← parseObs ot "2"
   let now0 := (kv ct "now0").bind parseCert
   let now1 := (kv ct "now1").bind parseCert
-  let recorded := mkCerts r1.recorded now0 now1
-  let rs : Resume := { cacheHit := r1.completed && !noSuite, mechOK := true, ecdhe := c1.b.ecdhe, recorded := recorded,
-                       finishedOK := c2.b.finishedOK }
-  let (m2, stage2) : String × Stage :=
-    match resume t p2 rs with
-    | .notResumed => let r2 := full t p2 c2.b; (showFull "2" r2 ob2, r2.stage)
-    | .resumedDone n ch => (s!"2.srv=done 2.resumed=1 2.peers={n} 2.chains={b01 ch} 2.req=- {copied "2" ob2}", .done)
-    | .resumedFailed s => (s!"2.srv=err 2.resumed=- 2.peers=- 2.chains=- 2.req=- {copied "2" ob2}", s)
-  -- the behaviour that created the session, judged under the configuration now in force
-  let orig : Behaviour := { c1.b with certs := mkCerts c1.b.sent.length now0 now1, certMsg := c1.b.certMsg }
-  let s2 : Option (String × String) :=
-    if ob2.o.completed && ob2.o.resumed then
-      if !ob1.o.completed then some ("resumed-unfinished", "a session was resumed whose handshake never completed")
-      else judgeResumed p2 orig ob2.o
-    else orElse (sigCheck c2) (judgeFull p2 c2.b ob2.o)
-  let note := stageNote "1" r1.stage ob1 ++ stageNote "2" stage2 ob2
-  pure { model := m1 ++ " " ++ m2, spec := orElse s1 s2, note := note, trivial := !ob1.o.completed }
+  -- second connection of a history
+  let second : Option (Policy × ConnCase × ConnObs) ←
+    if kind != "hist" then pure none else do
+      let p2 ← (kv ct "pol2").bind Policy.ofName
+      let c2 ← parseConn ct "2"
+      let ob2 ← parseObs ot "2"
+      pure (some (p2, c2, ob2))
+  -- the SPEC verdict needs no tables: it is taken on the observation alone
+  let spec : Option (String × String) :=
+    match second with
+    | none => s1
+    | some (p2, c2, ob2) =>
+      -- the behaviour that created the session, judged under the configuration now in force
+      let orig : Behaviour := { c1.b with certs := mkCerts c1.b.sent.length now0 now1, certMsg := c1.b.certMsg }
+      let s2 : Option (String × String) :=
+        if ob2.o.completed && ob2.o.resumed then
+          if !ob1.o.completed then some ("resumed-unfinished", "a session was resumed whose handshake never completed")
+          else judgeResumed p2 orig ob2.o
+        else orElse (sigCheck c2) (judgeFull p2 c2.b ob2.o)
+      orElse s1 s2
+  let trivial := if kind != "hist" then noSuite else !ob1.o.completed
+  -- the MODEL prediction needs the tables regenerated from the source; when the source has
+  -- moved outside the model's vocabulary there is no prediction (reported as a disagreement)
+  match tablesFor stack with
+  | none => pure { model := "model=unavailable(the extracted facts are outside the model's vocabulary)", spec := spec, trivial := trivial }
+  | some t =>
+    let (m, note) := modelOf t p1 c1 ob1 second now0 now1
+    pure { model := m, spec := spec, note := note, trivial := trivial }
 
 end Gotlcp.Oracle.C07
